@@ -686,8 +686,12 @@ func isNumberLiteral(n Node) bool {
 // After the dot only a single token is read without parentheses: a.b, a."b", a.true
 // (and a.b++ as the identifier takes its postfix operator with it).
 func isSingleToken(n Node) bool {
-	switch n.(type) { //nolint:exhaustive // only the nodes printed as one (non number) token.
-	case *Identifier, *StringLiteral, *Boolean, *PostfixExpression:
+	switch v := n.(type) { //nolint:exhaustive // only the nodes printed as one (non number) token.
+	case *Identifier:
+		return v.Type() != token.DOTDOT // a.(..): `a...` would be read as `a`, `..`, `.`
+	case *PostfixExpression:
+		return v.Prev.Type() != token.DOTDOT
+	case *StringLiteral, *Boolean:
 		return true
 	default:
 		return false
